@@ -8,14 +8,14 @@ import (
 
 // Re is the regex AST shared with the Lean environment model (Verif/Env/Regex.lean).
 type Re struct {
-	Kind   string   `json:"k"` // chr cls any eps seq alt star plus opt grp
-	C      byte     `json:"c,omitempty"`
-	Neg    bool     `json:"neg,omitempty"`
+	Kind   string    `json:"k"` // chr cls any eps seq alt star plus opt grp
+	C      byte      `json:"c,omitempty"`
+	Neg    bool      `json:"neg,omitempty"`
 	Ranges [][2]byte `json:"r,omitempty"`
-	Idx    int      `json:"i,omitempty"`
-	Name   string   `json:"n,omitempty"` // named group
-	A      *Re      `json:"a,omitempty"`
-	B      *Re      `json:"b,omitempty"`
+	Idx    int       `json:"i,omitempty"`
+	Name   string    `json:"n,omitempty"` // named group
+	A      *Re       `json:"a,omitempty"`
+	B      *Re       `json:"b,omitempty"`
 }
 
 func (r *Re) Sexp() Sexp {
